@@ -337,6 +337,10 @@ func (d *stakingDriver) exec(e BEvent, tw *TraceWriter) {
 		d.block(e, tw)
 		return
 	}
+	if e.Ev == "Tail" {
+		d.tail(tw)
+		return
+	}
 	args := map[string]interface{}{}
 	var err error
 	panicked := ""
@@ -355,6 +359,49 @@ func (d *stakingDriver) exec(e BEvent, tw *TraceWriter) {
 		write()
 	}
 	d.emit(tw, e.Ev, args, err, panicked)
+}
+
+func stkEvent(ev string, kv map[string]interface{}) BEvent {
+	a := map[string]json.RawMessage{}
+	for k, v := range kv {
+		bz, err := json.Marshal(v)
+		must(err)
+		a[k] = bz
+	}
+	return BEvent{Ev: ev, A: a}
+}
+
+// tail continues a behaviour with ordinary events (logged and validated like any other):
+//  1. epoch-closing blocks until every dogfood queue and pending list is empty, i.e. whatever the
+//     behaviour registered last (opt-out, pruning of a replaced key, undelegation hold) has fired;
+//  2. a change of the power of EVERY operator (one whole power unit delegated to each);
+//  3. two more epoch-closing blocks: the first recomputes the USD values, the second hands the new
+//     powers to the consensus engine.
+//
+// So a registry entry that was pruned wrongly shows up in the validator updates as well (C06).
+func (d *stakingDriver) tail(tw *TraceWriter) {
+	app := d.w.App
+	pending := func() bool {
+		return len(app.StakingKeeper.GetAllOptOutsToFinish(d.ctx)) > 0 || len(app.StakingKeeper.GetAllConsAddrsToPrune(d.ctx)) > 0 ||
+			len(app.StakingKeeper.GetAllUndelegationsToMature(d.ctx)) > 0 || len(app.StakingKeeper.GetPendingOptOuts(d.ctx).List) > 0 ||
+			len(app.StakingKeeper.GetPendingConsensusAddrs(d.ctx).List) > 0 || len(app.StakingKeeper.GetPendingUndelegations(d.ctx).List) > 0
+	}
+	for i := 0; i < 6 && !d.halted; i++ {
+		d.block(stkEvent("Block", map[string]interface{}{"adv": 1}), tw)
+		if !pending() {
+			break
+		}
+	}
+	unit := new(big.Int).Set(pow10(int(d.sc.Deci)))
+	for _, o := range d.ops {
+		if d.halted {
+			return
+		}
+		d.exec(stkEvent("Delegate", map[string]interface{}{"o": o, "x": unit.String()}), tw)
+	}
+	for i := 0; i < 2 && !d.halted; i++ {
+		d.block(stkEvent("Block", map[string]interface{}{"adv": 1}), tw)
+	}
 }
 
 func (d *stakingDriver) block(e BEvent, tw *TraceWriter) {
